@@ -49,7 +49,7 @@ Definition case_verify (input obs : json) : verdict :=
               match jlist (jget "jwt" input) with
               | JArr [_; _; payload] :: _ =>
                   let '(_, ds, _) := sd_jwt_parts token in
-                  match parse_halg (jstr_or_empty (jget "_sd_alg" payload)) with
+                  match match ref_alg_name payload with Some a => parse_halg a | None => None end with
                   | Some alg =>
                       let dec s := match o_dec O s with DJson j => Some j | DErr => None end in
                       match ref_verify (o_hash O alg) dec payload ds with
